@@ -54,14 +54,17 @@ func (r *Router) route(s Sender, p stanza.Packet) {
 		}
 	}
 	iq, isIq := p.(*stanza.IQ)
-	if isIq {
-		r.IQResultRouteLock.RLock()
+	if isIq && (iq.Type == stanza.IQTypeResult || iq.Type == stanza.IQTypeError) {
+		// Look the pending request up and unregister it in one step: of several responses carrying the same id
+		// (duplicates, possibly routed concurrently) only the first one finds it, the others are routed normally.
+		r.IQResultRouteLock.Lock()
 		route, ok := r.IQResultRoutes[iq.Id]
-		r.IQResultRouteLock.RUnlock()
 		if ok {
-			r.IQResultRouteLock.Lock()
 			delete(r.IQResultRoutes, iq.Id)
-			r.IQResultRouteLock.Unlock()
+		}
+		r.IQResultRouteLock.Unlock()
+		if ok {
+			// The channel has room for this single response: routing never waits for the caller of SendIQ
 			route.result <- *iq
 			close(route.result)
 			return
@@ -148,12 +151,37 @@ func (r *Router) NewIQResultRoute(ctx context.Context, id string) chan stanza.IQ
 	// is done.
 	go func() {
 		<-route.context.Done()
-		r.IQResultRouteLock.Lock()
-		delete(r.IQResultRoutes, id)
-		r.IQResultRouteLock.Unlock()
+		r.removeIQResultRoute(id, route)
 	}()
 
 	return route.result
+}
+
+// removeIQResultRoute unregisters a pending IQ result route, unless the id is registered for another request by now.
+func (r *Router) removeIQResultRoute(id string, route *IQResultRoute) {
+	r.IQResultRouteLock.Lock()
+	if r.IQResultRoutes[id] == route {
+		delete(r.IQResultRoutes, id)
+	}
+	r.IQResultRouteLock.Unlock()
+}
+
+// sendIQ registers the IQ result route before the request is written, so that a response arriving immediately is
+// not missed, and unregisters it when the request could not be sent.
+func (r *Router) sendIQ(ctx context.Context, s Sender, iq *stanza.IQ) (chan stanza.IQ, error) {
+	route := NewIQResultRoute(ctx)
+	r.IQResultRouteLock.Lock()
+	r.IQResultRoutes[iq.Attrs.Id] = route
+	r.IQResultRouteLock.Unlock()
+	if err := s.Send(iq); err != nil {
+		r.removeIQResultRoute(iq.Attrs.Id, route)
+		return nil, err
+	}
+	go func() {
+		<-route.context.Done()
+		r.removeIQResultRoute(iq.Attrs.Id, route)
+	}()
+	return route.result, nil
 }
 
 func (r *Router) Match(p stanza.Packet, match *RouteMatch) bool {
@@ -192,7 +220,7 @@ type IQResultRoute struct {
 func NewIQResultRoute(ctx context.Context) *IQResultRoute {
 	return &IQResultRoute{
 		context: ctx,
-		result:  make(chan stanza.IQ),
+		result:  make(chan stanza.IQ, 1),
 	}
 }
 
